@@ -338,12 +338,13 @@ class ASTListener(ModelicaListener):
 
     def exitSimple_expression(self, ctx: ModelicaParser.Simple_expressionContext):
         if len(ctx.expr()) > 1:
+            # Modelica ranges are start:stop or start:step:stop
             if len(ctx.expr()) > 2:
-                step = self.ast[ctx.expr()[2]]
+                step = self.ast[ctx.expr()[1]]
             else:
                 step = ast.Primary(value=1)
             self.ast[ctx] = ast.Slice(
-                start=self.ast[ctx.expr()[0]], stop=self.ast[ctx.expr()[1]], step=step
+                start=self.ast[ctx.expr()[0]], stop=self.ast[ctx.expr()[-1]], step=step
             )
         else:
             self.ast[ctx] = self.ast[ctx.expr()[0]]
